@@ -129,6 +129,8 @@ def _targets(tier):
 def _ops(dim):
     axes = [0, 1, 2] if dim == 3 else [2]
     out = [dict(op='translate', vec=v) for v in VECS[dim]]
+    # "move me by my own first / second control point": the vector is an object the shape itself holds
+    out += [dict(op='translate', own=0), dict(op='translate', own=1)]
     out += [dict(op='rotate', angle=a, axis=ax) for ax in axes for a in ANGLES]
     out += [dict(op='scale', factor=f) for f in FACTORS]
     return out
@@ -247,11 +249,12 @@ def _sign(dim, axis):
     return _SIGNS[key]
 
 
-def _op_map(op, dim, pivot):
-    """exact map of one letter; pivot = exact current start point of the (first) shape; None if no handedness fits"""
+def _op_map(op, dim, pivot, own=None):
+    """exact map of one letter; pivot = exact current start point of the (first) shape; None if no handedness fits;
+    own = exact current position of the control point an `own` translation takes as its vector"""
     if op['op'] == 'translate':
         M, _ = _ident(dim)
-        return M, [F(x) for x in op['vec']]
+        return M, ([F(x) for x in own] if 'own' in op else [F(x) for x in op['vec']])
     if op['op'] == 'scale':
         M, t = _ident(dim)
         f = F(op['factor'])
@@ -262,11 +265,21 @@ def _op_map(op, dim, pivot):
     return _rot_map(dim, op['axis'], op['angle'], sg, pivot)
 
 
+def _cart0(d0, k):
+    """exact Cartesian position of control point k of a definition"""
+    P = d0['P'][k]
+    return [F(x) / F(P[-1]) for x in P[:-1]] if d0['rational'] else [F(x) for x in P]
+
+
 def _call(op, obj, inplace):
     """inplace None = keyword omitted ('without the in-place option')"""
     from geomdl import operations
     kw = {} if inplace is None else dict(inplace=inplace)
     if op['op'] == 'translate':
+        if 'own' in op:
+            # the vector is one of the shape's own control points, handed over as the very list the view returned
+            src = obj if hasattr(obj, 'ctrlpts') and hasattr(obj, 'degree') else list(obj)[0]
+            return operations.translate(obj, src.ctrlpts[op['own']], **kw)
         return operations.translate(obj, list(op['vec']), **kw)
     if op['op'] == 'scale':
         return operations.scale(obj, op['factor'], **kw)
@@ -353,7 +366,7 @@ def _read_evalpts(obj, elems, container):
 def _feat_ops(chain):
     f = dict(op=chain[-1]['op'] if len(chain) == 1 else 'chain', ops=[o['op'] for o in chain], chain_len=len(chain))
     last = chain[-1]
-    for k in ('axis', 'angle', 'factor', 'vec'):
+    for k in ('axis', 'angle', 'factor', 'vec', 'own'):
         if k in last:
             f[k] = last[k]
     return f
@@ -405,7 +418,7 @@ def run_case(case, ctx):
         # expected exact map; the pivot of a rotation is the start point of the shape *at that moment*
         T = _ident(dim)
         for op in chain:
-            step = _op_map(op, dim, _apply(T, start0))
+            step = _op_map(op, dim, _apply(T, start0), _apply(T, _cart0(defs0[0], op['own'])) if 'own' in op else None)
             T = None if step is None else _compose(step, T)
             if T is None:
                 break
